@@ -172,6 +172,9 @@ def finish(ctx: Ctx, t0: float, seed: int, evidence_path: str) -> int:
             print(f"  {o.site}:{o.line} [{o.rule}] {o.msg}  key={o.key}")
         print(f"VIOLATION property={ctx.prop} replay={vpath}")
         return 1
+    stale = evidence_path[:-5] + ".violations.json"
+    if os.path.exists(stale):
+        os.remove(stale)
     return 0
 
 
